@@ -12,7 +12,7 @@ ALPHABET = ["\\", "n", "N", ";", ",", ":", '"', "%", "2", "C", "\r", " ", "a", "
 RULE = ("(1) join/split: names over RFC tokens x parameter maps (0-2 parameters with values from the alphabet) x values of classes text, uri, cal-address, "
         "inline, integer, date-time, with text/uri/cal-address/inline values exhaustive over the 14-symbol alphabet {\\ n N ; , : \" % 2 C CR SP a =} up to "
         "length 3 (thorough 4): from_parts -> to_ical -> from_ical -> parts must return name, parameters and a value text that decodes to the value, "
-        "and an independent tokenizer (R2) must read the same three pieces; (2) injection: a calendar is built with a hostile payload (CR, LF, CRLF, "
+        "and an independent tokenizer (R2) must read the same three pieces, also from the line an Event writes after add(name, value, parameters=); (2) injection: a calendar is built with a hostile payload (CR, LF, CRLF, "
         "literal \\n, BEGIN:/END:/property text, quote games, C0/C1 controls, U+2028/9, NUL) placed in each of 12 positions (text, uri, cal-address, "
         "X- value, category item, inline value, parameter scalar/list/quoted value, ...); the outcome must be refusal, rejection on re-parse, or "
         "exactly the intended multiset of (component path, property name, parameter-name set); non-trivial = the value/payload contains a delimiter, "
@@ -183,6 +183,33 @@ def check_join(ctx, case):
         ctx.fail("split-value", observed=(line, n2, got_params, v2), expected=want_text)
         return
     ctx.count("join:roundtrip-ok")
+    # the same property stored on a component (parameters handed to add()): the line the component writes carries exactly these parameters -
+    # the value object owns them, whatever other value objects of its class were given earlier in this process
+    try:
+        import icalendar
+        comp = icalendar.Event()
+        fresh, _ = make_value(vc, v)
+        comp.add(name, fresh, parameters=dict(d) or None)
+        clines = [l for l in R3.unfold(comp.to_ical()).decode("utf-8").split("\r\n") if l and not l.startswith(("BEGIN:", "END:"))]
+    except (AssertionError, ValueError):
+        clines = None
+        ctx.count("join:component-refused")
+    if clines is not None:
+        if len(clines) != 1:
+            ctx.fail("component-line-count", observed=clines[:4], expected="one property line")
+            return
+        try:
+            cn, cp, cv = R2.parse(clines[0])
+        except R2.R2Error as e:
+            ctx.fail("emitted-not-rfc", observed=(clines[0], str(e)), expected="tokenizable content line")
+            return
+        c_params = {k.upper(): canon([x for x, _ in vs]) for k, vs in cp}
+        if vc == "datetime":
+            c_params = {k: x for k, x in c_params.items() if k not in ("TZID", "VALUE")}
+        if (cn.upper(), c_params, cv) != (name.upper(), want_params_emitted, want_text):
+            ctx.fail("component-line-differs", observed=(clines[0], c_params), expected=(name, want_params_emitted, want_text))
+            return
+        ctx.count("join:component-line-ok")
     # splitting must not depend on what a caller did with an earlier result: edit the returned map in place, split an equal line again
     p2["X-VERIF-MUTATED"] = "1"
     p2.pop(next(iter(want_params_emitted), "X-NONE"), None)
